@@ -14,7 +14,7 @@ CHECK = {
                   "harness/simnet datagram log. A record listed twice because two requested distances share bucket 0 is counted, not judged.",
     "technique": "property-based testing (rapid): validity predicate over real replies against a table snapshot; differential against a reference acceptance filter; datagram size measured on a simulated network",
     "runs": [
-        {"name": "resp", "run": "^TestC11_Responder$", "checks": {"quick": 250, "thorough": 3000}, "shards": {"quick": 2, "thorough": 16}},
+        {"name": "resp", "run": "^TestC11_Responder$", "checks": {"quick": 125, "thorough": 150}, "shards": {"quick": 2, "thorough": 16}, "rounds": {"quick": 2, "thorough": 4}},
         {"name": "ask", "run": "^TestC11_Asker$", "checks": {"quick": 1500, "thorough": 20000}, "shards": {"quick": 1, "thorough": 8}},
     ],
     "rule": "responder: rapid draws (table spec list, distance list incl. empty/256 entries/repeated/invalid/0 first, asker address class, end-to-end flag); "
